@@ -317,6 +317,45 @@ def h_arity(E, idx):
         return type(e).__name__
 
 
+SHAPES = [(), (2,), (3,), (2, 2), (2, 3), (3, 3), (2, 2, 2), (3, 3, 3), (2, 2, 2, 2)]
+
+
+def _shape_domain(fname, shape):
+    """documented argument domain of every function of the MatrixGrader namespace, by argument shape"""
+    nd = len(shape)
+    if fname in ('re', 'im', 'conj', 'norm', 'trans', 'ctrans', 'adj'):
+        return True
+    if fname == 'abs':
+        return nd <= 1
+    if fname in ('det', 'trace'):
+        return nd == 2 and shape[0] == shape[1]
+    if fname == 'cross':
+        return shape == (3,)
+    return nd == 0        # every element-wise function, arctan2, kronecker, min, max: scalars only
+
+
+def h_shapes(E, fname):
+    """every function of the MatrixGrader namespace x every argument shape up to 4 axes: an argument outside the documented domain is a
+    student-facing error, an argument inside it is evaluated (the entries do not matter for the shape decision; they are concrete)"""
+    from mitxgraders import MatrixGrader
+    from mitxgraders.helpers.calc.expressions import evaluator, DEFAULT_SUFFIXES
+    from mitxgraders.helpers.calc.math_array import MathArray
+    from mitxgraders.exceptions import StudentFacingError
+    shape = E.choice('shape', SHAPES)
+    x = (0.5 if fname == 'arcsech' else 1.5) if shape == () else MathArray((np.arange(int(np.prod(shape)), dtype=float).reshape(shape) + 1.0) / 7.0 + np.eye(shape[0])
+                                           if len(shape) == 2 and shape[0] == shape[1] else (np.arange(int(np.prod(shape)), dtype=float).reshape(shape) + 1.0) / 7.0)
+    two = fname in ('cross', 'min', 'max', 'arctan2', 'kronecker')
+    expr = '%s(x, x)' % fname if two else '%s(x)' % fname
+    ok = _shape_domain(fname, shape)
+    try:
+        v, _ = evaluator(expr, {'x': x}, MatrixGrader.default_functions, DEFAULT_SUFFIXES, max_array_dim=4)
+    except StudentFacingError as e:
+        E.check('argument-shape-outside-domain-iff-student-facing-error', not ok)
+        return type(e).__name__
+    E.check('argument-shape-outside-domain-iff-student-facing-error', ok)
+    return 'value'
+
+
 def harnesses(tier):
     hs = []
     T = tier == 'thorough'
@@ -335,6 +374,10 @@ def harnesses(tier):
         add(h_array_funcs, 'array_funcs', dict(n=n), 'symbolic entries')
     for name in sorted(set(REF) | set(INVERSES)):
         add(h_grid, 'grid', dict(f=name), 'concrete grid (plain evaluation)', validate=False)
+    from mitxgraders import MatrixGrader
+    for name in sorted(MatrixGrader.default_functions):
+        if name != 'factorial' and name != 'fact':
+            add(h_shapes, 'shapes', dict(f=name), 'argument shapes (), 2, 3, 2x2, 2x3, 3x3, 2x2x2, 3x3x3, 2x2x2x2', validate=False)
     add(h_constants, 'constants', {}, 'tables')
     for i in range(len(ARITY)):
         add(h_arity, 'arity', dict(i=i), ARITY[i][0], validate=False)
